@@ -49,7 +49,8 @@ func c04TypedValues() []VarSpec {
 	for _, s := range []string{"", "1", " 1 ", "abc", "1e3", "true", "false", "NaN", "-0", "0", " ", "Infinity", "+1", "2.50"} {
 		vals = append(vals, strVar("x", s))
 	}
-	vals = append(vals, setVar("x"), setVar("x", "/0/0"), setVar("x", "/0/2", "/0/1"), setVar("x", "/0/3"), setVar("x", "/0/4", "/0/0"), setVar("x", "/0"), setVar("x", "/"), setVar("x", "/0/5"))
+	vals = append(vals, setVar("x"), setVar("x", "/0/0"), setVar("x", "/0/2", "/0/1"), setVar("x", "/0/3"), setVar("x", "/0/4", "/0/0"), setVar("x", "/0"), setVar("x", "/"), setVar("x", "/0/5"),
+		setVar("x", "/0/1", "/0/5", "/0/0", "/0/2"), setVar("x", "/0/2", "/0/4", "/0/1"))
 	return vals
 }
 
